@@ -22,7 +22,8 @@ Decided by symbolic interpretation of the repository source (nothing is executed
 (callsite/*) a bounded generic-method model of `MethodAnalysis._create_basic_block` (2-3 symbolic
         instructions, each plain or branching, arbitrary leaders) must call set_childs exactly
         once per final block with determineNext's result for the block's last instruction, or
-        with [] when that instruction does not branch.
+        with [] when that instruction does not branch; every control-transfer opcode of the Dalvik
+        table must be in the (folded) BasicOPCODES set that gates that call.
 """
 from __future__ import annotations
 
@@ -291,6 +292,18 @@ def run(ctx):
 
     basic_val, _ = fm.fold_module_global(repo, folder, ma, "BasicOPCODES")
     basic = fm.as_int_set(basic_val, "BasicOPCODES")
+    # the call site consults determineNext only for opcodes in BasicOPCODES: every control-transfer opcode must be there,
+    # otherwise a block ending in it is wired as falling through (extra members are harmless here: determineNext gives [])
+    stmts = fm.fold_module_global(repo, folder, ma, "BasicOPCODES")[1]
+    where = type("M", (), dict(qualname="BasicOPCODES", file=ma.relpath, line=getattr(stmts[-1], "lineno", 1)))()
+    for op in sorted(dalvik.FLOW_OPS):
+        nm = dalvik.OPCODES[op][0]
+        ctx.check("callsite/opcode-set", "op 0x%02x" % op, op in basic, where, "BasicOPCODES lacks 0x%02x %s" % (op, nm),
+                  "%s (0x%02x) is not in BasicOPCODES: _create_basic_block never asks determineNext for it, a block ending in it gets "
+                  "set_childs([]) and is wired to the next block instead of its %s successors" % (nm, op, dalvik.OPCODES[op][3]),
+                  node=stmts[-1], detail="%s is routed through determineNext" % nm)
+        ctx.count("flow_opcodes")
+    ctx.floor("flow_opcodes", 22)
     scen = THOROUGH_SCEN if ctx.tier == "thorough" else QUICK_SCEN
     check_callsite(ctx, repo, folder, ma_cls, dn, de, basic, scen)
     ctx.floor("callsite_scenarios", len(scen))
